@@ -1,21 +1,29 @@
 (* Obligation tying the component arithmetic of the model's rgb builders (Scrub.rgb3 / rgb1: clamping to
    0..255, 24-bit split) to the Gallina text REGENERATED from the body of _AnsiControlFn.rgb
    (tools/translate_fns.py -> Gen/Fns.v). *)
-From Coq Require Import ZArith List Bool Lia.
+From Coq Require Import ZArith List Bool Lia ZifyBool.
 From AS Require Import Base.
 From AS.Gen Require Import Fns.
 Import ListNotations.
 
 (* _AnsiControlFn.rgb: the component arithmetic of the model's builders (Scrub.rgb3 / rgb1) is the code's *)
 From AS.Model Require Scrub.
+Lemma pair_eq {A B} (a a' : A) (b b' : B) : a = a' -> b = b' -> (a, b) = (a', b').
+Proof. intros -> ->. reflexivity. Qed.
+
 Lemma rgb_clamp_is_code : forall r g b : Z,
   gen_rgb_clamp r g b = (Scrub.clamp255 r, Scrub.clamp255 g, Scrub.clamp255 b).
-Proof. reflexivity. Qed.
+Proof.
+  (* shape-independent: any arrangement of min / max / comparisons that clamps to 0..255 satisfies it *)
+  intros r g b. unfold gen_rgb_clamp, Scrub.clamp255.
+  repeat match goal with |- context [if ?c then _ else _] => destruct c eqn:? end;
+  repeat match goal with |- (_, _) = (_, _) => apply pair_eq end; lia.
+Qed.
 
 Lemma rgb3_uses_code : forall r g b comp,
   Scrub.rgb3 r g b comp =
   let '(r', g', b') := gen_rgb_clamp r g b in Scrub.color_texts comp [2; r'; g'; b']%Z.
-Proof. reflexivity. Qed.
+Proof. intros r g b comp. rewrite rgb_clamp_is_code. reflexivity. Qed.
 
 Lemma rgb1_uses_code : forall v comp,
   Scrub.rgb1 v comp =
